@@ -295,7 +295,7 @@ def set_iterations(fnode):
             if isinstance(it, (ast.Set, ast.SetComp)):
                 bad = True
             if bad:
-                out.append((n.lineno, ast.unparse(it)))
+                out.append((getattr(n, 'lineno', getattr(it, 'lineno', 0)), ast.unparse(it)))
     return out
 
 
